@@ -307,3 +307,94 @@ UNITS += [
          note="NormalDistribution::operator=(%s): %s" % ("const&" if k == "copy" else "&&", "changes mean/stddev only, never acquires the source's cached deviate" if k == "copy" else "takes the source's cached deviate only when the target has none, and then the source gives it up"))
     for k in ("copy", "move")
 ]
+
+
+# ---------------------------------------------------------------------------
+# PoissonDistribution::operator(): WHICH method is used for which lambda (documented: Knuth's direct method for lambda <= 16, Gaussian approximation above)
+# ---------------------------------------------------------------------------
+def build_poisson_branch(ctx):
+    import re
+    from vkit.extract import ExtractionDrift
+    th = ctx.func(POI, r"static CELER_CONSTEXPR_FUNCTION int lambda_threshold\(\)", [], name="PoissonDistribution::lambda_threshold")
+    m = re.search(r"return\s+(\d+)\s*;", th.body)
+    if not m:
+        raise ExtractionDrift("lambda_threshold() is not an integer literal")
+    rules = POI_RULES + [Rule(r"\+\+k;", "++k; __CPROVER_assume(++g_it <= 3);   /* bounded unit: at most 3 iterations of the direct loop */", (0, 1), note="ghost iteration bound of the direct method's loop")]
+    pc = ctx.func(POI, r"^PoissonDistribution<RealType>::operator\(\)\(Generator& rng\) -> result_type", rules, name="PoissonDistribution::operator()")
+    return (HDR + """
+typedef unsigned int result_type;
+typedef struct Engine Engine;
+typedef struct { real_type lambda_; } PoissonDistribution;
+#define POI_THRESHOLD """ + m.group(1) + """
+double __CPROVER_uninterpreted_exp(double);
+unsigned g_draws, g_gauss, g_it;    /* ghost: canonical draws consumed, normal deviates drawn */
+real_type GC_draw(Engine* rng) __CPROVER_assigns(g_draws) __CPROVER_ensures(g_draws == __CPROVER_old(g_draws) + 1 && __CPROVER_return_value >= 0 && __CPROVER_return_value < 1);
+real_type NORMAL_sample(PoissonDistribution const* self, Engine* rng) __CPROVER_assigns(g_gauss) __CPROVER_ensures(g_gauss == __CPROVER_old(g_gauss) + 1 && !__CPROVER_isnand(__CPROVER_return_value) && !__CPROVER_isinfd(__CPROVER_return_value) && __CPROVER_return_value <= 4e9);
+result_type POI_call(PoissonDistribution const* self, Engine* rng)
+__CPROVER_requires(self != 0 && self->lambda_ > 0 && !__CPROVER_isinfd(self->lambda_) && g_draws == 0 && g_gauss == 0 && g_it == 0)
+__CPROVER_assigns(g_draws, g_gauss, g_it)
+/* documented split (class comment, G4Poisson): Knuth's exact direct method for lambda <= 16 -- INCLUDING lambda == 16 --, the Gaussian approximation only above */
+__CPROVER_ensures(g_gauss == (self->lambda_ > 16 ? 1 : 0))
+__CPROVER_ensures(POI_THRESHOLD == 16)
+/* direct method: the count is the number of uniform draws minus one (X = n - 1), at least one draw; Gaussian method: no uniform draw */
+__CPROVER_ensures(g_gauss == 0 ? (g_draws >= 1 && __CPROVER_return_value == g_draws - 1) : g_draws == 0)
+{""" + pc.body + """}
+void h_poib(void)
+{
+    PoissonDistribution d; Engine* e;
+    POI_call(&d, e);
+    VERIF_CANARY();
+}
+""")
+
+
+UNITS += [
+    Unit("c15_poisson_branch", build_poisson_branch, "h_poib", enforce="POI_call", replace=["NORMAL_sample", "GC_draw"], timeout=300, unwind=5, backend=["sat", "cvc5"],
+         bounded="at most 3 iterations of the direct method's loop (the checked facts do not depend on the number of iterations); exp uninterpreted",
+         must_have=[r"POI_call.postcondition"], checks=["--bounds-check", "--pointer-check"],
+         assumptions=["termination of the direct method's loop is probabilistic and not decided", "NormalDistribution: any finite value"],
+         note="PoissonDistribution::operator(): the exact direct method is used for every lambda <= 16 (16 included) and returns draws - 1; the Gaussian approximation only for lambda > 16"),
+]
+
+
+# ---------------------------------------------------------------------------
+# UniformRealDistribution<RealType>::operator(): the canonical value is generated in the distribution's OWN real type
+# ---------------------------------------------------------------------------
+def build_uniform_real_T(ctx):
+    pc = ctx.func(URD, r"UniformRealDistribution<RealType>::operator\(\)\(Generator& rng\) const -> result_type", [
+        Rule(r"generate_canonical<RealType>\(rng\)", "GC_T(rng)", "*", note="generate_canonical<RealType> -> stub: a RealType value in [0, 1) (GenerateCanonical32<float>: c13_canon_float)"),
+        Rule(r"generate_canonical(?:<real_type>)?\(rng\)", "GC_real(rng)", "*", note="generate_canonical (build real_type = double) -> stub: a double in [0, 1)"),
+        Rule(r"\b(a_|delta_)\b", r"self->\1", "+", note="data member"),
+        Rule(r"std::fma\(", "FMA(", (0, 1), note="std::fma -> uninterpreted (cbmc has no model of fma)"),
+    ], name="UniformRealDistribution<RealType>::operator()")
+    return (HDR + """
+typedef float RealType;                         /* binding of this unit: RealType = float in a build whose real_type is double */
+typedef RealType result_type;
+typedef struct Engine Engine;
+typedef struct { RealType a_, delta_; } UniformRealDistribution;
+unsigned g_t_draws, g_real_draws; RealType g_ut;
+RealType GC_T(Engine* rng) __CPROVER_assigns(g_t_draws, g_ut) __CPROVER_ensures(g_t_draws == __CPROVER_old(g_t_draws) + 1 && __CPROVER_return_value == g_ut && g_ut >= 0 && g_ut < 1);
+real_type GC_real(Engine* rng) __CPROVER_assigns(g_real_draws) __CPROVER_ensures(g_real_draws == __CPROVER_old(g_real_draws) + 1 && __CPROVER_return_value >= 0 && __CPROVER_return_value < 1);
+double __CPROVER_uninterpreted_fma(double, double, double);
+#define FMA(a, b, c) __CPROVER_uninterpreted_fma((a), (b), (c))
+result_type URD_call(UniformRealDistribution const* self, Engine* rng)
+__CPROVER_requires(self != 0 && g_t_draws == 0 && g_real_draws == 0)
+__CPROVER_assigns(g_t_draws, g_real_draws, g_ut)
+/* exactly one canonical value, generated in the distribution's own RealType (a float strictly below 1 stays below 1; a double narrowed afterwards can round up to the excluded upper bound) */
+__CPROVER_ensures(g_t_draws == 1 && g_real_draws == 0)
+{""" + pc.body + """}
+void h_urdt(void)
+{
+    UniformRealDistribution d; Engine* e;
+    URD_call(&d, e);
+    VERIF_CANARY();
+}
+""")
+
+
+UNITS += [
+    Unit("c15_uniform_real_T", build_uniform_real_T, "h_urdt", enforce="URD_call", replace=["GC_T", "GC_real"], timeout=120, backend=["sat", "cvc5"],
+         must_have=[r"URD_call.postcondition"], checks=["--bounds-check", "--pointer-check"],
+         assumptions=["RealType bound to float (one instantiation); fma uninterpreted: the half-open upper bound itself is NOT decided (cbmc has no model of fma)"],
+         note="UniformRealDistribution<float>::operator(): exactly one canonical draw, generated in the distribution's own real type"),
+]
